@@ -23,6 +23,7 @@ type ixCtx struct {
 	predSumm map[*ssa.Function]map[string]int // predicate true => exprKey(with P<i>) -> min len
 	inProg   map[*ssa.Function]bool
 	retLenMemo map[*ssa.Function]retLenSumm
+	sitesMemo  map[*ssa.Function][]ixSite
 }
 
 // isPure: no stores, map updates, or calls to impure functions (depth-bounded).
@@ -1012,33 +1013,7 @@ func engineIX(w *World, tier string) *EngineResult {
 		for _, s := range sites {
 			nSites++
 			pos := w.pos(instrPos(s.ins))
-			facts := c.factsAt(s.ins.Block(), nil)
-			// an access that already succeeded on every path to this one proves its own bound
-			for _, o := range sites {
-				if o.ins == s.ins || o.array {
-					continue
-				}
-				dom := false
-				if o.ins.Block() == s.ins.Block() {
-					for _, bi := range s.ins.Block().Instrs {
-						if bi == o.ins {
-							dom = true
-							break
-						}
-						if bi == s.ins {
-							break
-						}
-					}
-				} else if o.ins.Block().Dominates(s.ins.Block()) {
-					dom = true
-				}
-				if dom {
-					k := c.exprKey(o.base, nil, 0)
-					if o.need > facts[k] {
-						facts[k] = o.need
-					}
-				}
-			}
+			facts := c.factsBefore(fn, s.ins)
 			have := c.minLen(s.base, facts, nil, map[ssa.Value]bool{}, true, 0)
 			if s.array {
 				// variable index into [N]T: need a dominating idx < N guard
@@ -1095,6 +1070,47 @@ func engineIX(w *World, tier string) *EngineResult {
 	}
 	r.finish()
 	return r
+}
+
+// factsBefore: the branch facts that dominate instruction at, plus the bounds proved by the
+// accesses that already succeeded on every path to it (an index x[0] that did not panic
+// shows len(x) ≥ 1 for everything after it).
+func (c *ixCtx) factsBefore(fn *ssa.Function, at ssa.Instruction) map[string]int {
+	facts := c.factsAt(at.Block(), nil)
+	if c.sitesMemo == nil {
+		c.sitesMemo = map[*ssa.Function][]ixSite{}
+	}
+	sites, ok := c.sitesMemo[fn]
+	if !ok {
+		sites = c.sitesOf(fn)
+		c.sitesMemo[fn] = sites
+	}
+	for _, o := range sites {
+		if o.ins == at || o.array {
+			continue
+		}
+		dom := false
+		if o.ins.Block() == at.Block() {
+			for _, bi := range at.Block().Instrs {
+				if bi == o.ins {
+					dom = true
+					break
+				}
+				if bi == at {
+					break
+				}
+			}
+		} else if o.ins.Block().Dominates(at.Block()) {
+			dom = true
+		}
+		if dom {
+			k := c.exprKey(o.base, nil, 0)
+			if o.need > facts[k] {
+				facts[k] = o.need
+			}
+		}
+	}
+	return facts
 }
 
 func arrayIndexGuarded(c *ixCtx, s ixSite) bool {
@@ -1220,7 +1236,7 @@ func (c *ixCtx) requireAtCallers(fn *ssa.Function, tmpl string, need int, depth 
 		if !okSub {
 			return false
 		}
-		facts := c.factsAt(site.Block(), nil)
+		facts := c.factsBefore(caller, site)
 		if facts[key] >= need {
 			*chain = append(*chain, fmt.Sprintf("%s guards len ≥ %d", fnKey(caller), need))
 			continue
